@@ -32,7 +32,7 @@ def aligned_rows(rng, n, W, alpha, gapfrac=0.15):
 
 def scenarios(rng, tier):
     S = []
-    widths = [1, 59, 60, 61, 120, 180, 240] if tier == "quick" else [1, 2, 30, 59, 60, 61, 119, 120, 121, 179, 180, 181, 300, 600, 1200]
+    widths = [1, 59, 60, 61, 120, 180, 240, 1250] if tier == "quick" else [1, 2, 30, 59, 60, 61, 119, 120, 121, 179, 180, 181, 300, 600, 1200, 4100, 6000]
     for W in widths:
         for kind in ("prot", "nuc"):
             alpha = "DEFHIKLMPQRSVWYACGT" if kind == "prot" else "ACGT"
